@@ -235,10 +235,10 @@ def _full_groups(src_gv, src_uids, groups):
     return c
 
 
-def oracle_A(ctx, plan, src, tabs, res, info):
+def oracle_A(ctx, plan, src, tabs, res, info, value_fn=None, prefix=''):
     g = plan['gen']
     rd, pdn = plan['rdm_desc'], plan['pat_desc']
-    sig = g
+    sig = prefix + g
     try:
         train_set, test_set, ceil_set = res
     except Exception:
@@ -257,7 +257,7 @@ def oracle_A(ctx, plan, src, tabs, res, info):
         for name, part in (('train', tr), ('test', te), ('ceil', ce)):
             if part is None:
                 continue
-            probs = check_assoc(part[0], *tabs)
+            probs = check_assoc(part[0], *tabs, **({'value_fn': value_fn} if value_fn else {}))
             if probs:
                 ctx.violation('folds_ref.assoc', f'{sig}:{name}:{probs[0][0]}',
                               f'{g} fold {f} {name} set: {probs[0][1]}')
